@@ -68,9 +68,6 @@ theorem namei_append (h : Host) (a : List Name) (cur : Path) (cnt : Nat) (b : Li
 
 /-! ## depth bound -/
 
-/-- the longest path of the host tree -/
-def depthBound (h : Host) : Nat := (h.map (·.1.length)).foldr max 0
-
 theorem le_depthBound (h : Host) (e : Path × Node) (he : e ∈ h) : e.1.length ≤ depthBound h := by
   induction h with
   | nil => cases he
